@@ -80,6 +80,17 @@ def scenarios(rng, tier):
             elif r < 0.7: s.frame(c, probe(mac(40 + c), own_c, mac(40 + c), own_c))
             elif r < 0.85: s.frame(c, query(M, own_c, seq=3))
             else: s.frame(c, discover(M, gen=1, tos=rng.choice([0, 1])))
+    # every wire counter at the values named in the statement, for the requests that carry an offset: large properties of
+    # several sizes asked for at 0, 1, the largest value that fits 16 bits, and the values at which offset + payload wraps
+    for mtu in ((576, 1500) if tier == 'quick' else (576, 590, 1500, 9216)):
+        P = mtu - 34
+        for size in (14, 3000, 70000):
+            s.start('offs_%d_%d' % (mtu, size)); s.lines.append('cfg 0 mtu=%d' % mtu)
+            s.lines.append(gline(icon=bytes(i & 255 for i in range(size)), fname=bytes(65 + i % 26 for i in range(min(size, 2000))), hwid=bytes(range(1, 65))))
+            s.frame(0, discover(M, gen=1))
+            for typ in (14, 17, 19):
+                for off in (0, 1, size - 1, size, size + 1, 0x7FFF, 0x8000, 65535, 65536 - P - 1, 65536 - P, 65536 - P + 1, 65536 - P // 2, 65000):
+                    if 0 <= off <= 65535: s.frame(0, qlt(M, OWN0, typ, off, seq=3))
     return [(s.text(), {})]
 def project(blk, name, meta):
     return ('fault',) if blk.fault else ()
